@@ -8,7 +8,7 @@ package doccomposer
 //   - a document with an id is refused; bytes without a supported action / without the action's value
 //     member are not a patch.
 // Bound: documents over 0..2 keys, 0..2 services, 0..2 also-known-as URIs (absent or non-empty
-// lists), 0..3 further members drawn from 6 names x 9 JSON values (nested objects, arrays, numbers,
+// lists), 0..3 further members drawn from 6 names x 13 JSON values (nested objects, arrays, the empty array / object / string, numbers,
 // strings with escapes, HTML-sensitive characters and literal backslash-u text, booleans, null); quick tier: every list combination x a seeded sample of 40 extra
 // member sets, thorough tier: x 400.
 
@@ -72,6 +72,7 @@ func TestVerifBoundedRoundTrip(t *testing.T) {
 		"text with \"quotes\" and \\ and é \n newline",
 		float64(1e21), false, nil,
 		"a<b>&c", "back\\u0026slash \\u003c text", []interface{}{nil, "x & y"},
+		[]interface{}{}, map[string]interface{}{}, "", float64(0),
 	}
 	cases := 0
 	composer := New()
